@@ -98,6 +98,10 @@ def call_native(it, f, args, kwargs):
     I = _I()
     m = MODELS.get(f)
     if m is not None:
+        mod = (getattr(f, '__module__', '') or '').split('.')[0]
+        if mod in ('json', 'random', 'numpy', 'copy', 're', 'time', 'threading', 'queue') or \
+                f is open:
+            it.used.add(f'<model> {mod or "builtins"}.{getattr(f, "__name__", f)}')
         return m(it, *args, **kwargs)
     # bound methods of native objects (str.upper, re.Match.group, ...)
     if all_native(args, kwargs):
